@@ -336,7 +336,9 @@ Definition step (s : shell) (th : thread) (a : action) : option shell :=
   | ThReader, ALock sub =>
       match sh_rpc s with
       | RLock1 => if sub then None else Some (set_rpc s RLock2)
-      | RLock2 => let s1 := if sub then submit s JData else s in Some (settle s1 (sh_todo s1))
+      | RLock2 =>
+          if sub && sh_shutdown s then None     (* submit after shutdown raises inside add_task: not modelled *)
+          else let s1 := if sub then submit s JData else s in Some (settle s1 (sh_todo s1))
       | _ => None
       end
   | ThReader, ALockDrop =>
